@@ -14,6 +14,7 @@ This private submodule is *not* intended for importation by downstream callers.
 '''
 
 # ....................{ IMPORTS                            }....................
+from beartype.claw._package._clawpkgmake import make_conf_hookable
 from beartype.claw._package.clawpkgtrie import (
     remove_beartype_pathhook_unless_packages_trie)
 from beartype.typing import (
@@ -119,7 +120,12 @@ def beartyping(
             # beartyping(...):" block has *NOT* itself called the beartype_all()
             # function with a conflicting beartype configuration. In this
             # case...
-            if claw_state.packages_trie_whitelist.conf_if_hooked == conf:
+            #
+            # Note that the beartype_all() function called above globalized the
+            # hookable variant of this configuration (rather than this
+            # configuration itself). Compare against that variant.
+            if claw_state.packages_trie_whitelist.conf_if_hooked == (
+                make_conf_hookable(conf)):
                 # Restore the prior global beartype configuration if any.
                 claw_state.packages_trie_whitelist.conf_if_hooked = (
                     packages_trie_conf_if_hooked_old)
